@@ -148,3 +148,52 @@ def build(d, routes=None, lambda_backend=True, incremental=None, order=None):
         for o in odes:
             m.add_ode(o)
     return m, ev_order
+
+
+EVALUATORS = ["ode", "jacobian", "grad", "diff_jacobian", "grad_jacobian", "vMat", "eventRateVector", "pureOdeVector",
+              "transitionJacobian", "transitionMean", "transitionVar"]
+GETTERS = ["get_ode_eqn", "get_jacobian_eqn", "get_grad_eqn", "get_diff_jacobian_eqn", "get_grad_jacobian_eqn", "get_StateChangeMatrix",
+           "get_EventRateVector", "get_pureOdeVector", "get_ReactantMatrix", "get_TransitionJacobian", "get_TransitionMean", "get_TransitionVar"]
+
+
+def touch(m, x, t, theta):
+    """evaluate everything once (symbolic getters and compiled evaluators), ignoring failures: leaves every cache warm"""
+    try:
+        m.parameters = list(theta)
+    except Exception:
+        pass
+    for g in GETTERS:
+        try:
+            getattr(m, g)()
+        except Exception:
+            pass
+    for e in EVALUATORS:
+        try:
+            getattr(m, e)(x, t)
+        except Exception:
+            pass
+
+
+def can_grow(d):
+    return len(d.get("events", [])) + len(d.get("odes", [])) >= 2
+
+
+def build_grown(d, x, t, theta, lambda_backend=True):
+    """the same model reached from a NON-initial state: built without its last process (last explicit ODE term if
+    there is one, else the last event), everything evaluated once, then the last process added with add_ode / add_event"""
+    import copy
+    pg = env.load_pygom()
+    d1 = copy.deepcopy(d)
+    if d1.get("odes"):
+        last = ("ode", d1["odes"].pop())
+    else:
+        last = ("event", d1["events"].pop())
+    m, order = build(d1, lambda_backend=lambda_backend)
+    touch(m, x, t, theta)
+    if last[0] == "ode":
+        m.add_ode(pg.Transition(origin=last[1][0], equation=last[1][1], transition_type="ODE"))
+    else:
+        kind, obj = make_event_obj(pg, last[1], last[1].get("route", "event"))
+        m.add_event(obj)
+        order = order + [len(d["events"]) - 1]
+    return m, order
